@@ -87,6 +87,12 @@ class C07(Check):
                 yield {"sessions": sessions, "header": "raw" if ci % 2 else "encoded", "target": "bytesio", "password": pw}
 
     def execute(self, case, env):
+        SS.RECORD.clear()
+        out = self._execute(case, env)
+        # KF-47: failures of a Deflate64 folder whose input the inflate64 library itself cannot round-trip are marked as such
+        return arch.tag_kf47(out, [(f, [m["data"] for m in added if m.get("kind") in ("file", "link") and m.get("data")]) for f, added in SS.RECORD])
+
+    def _execute(self, case, env):
         out = Outcome()
         sessions = case["sessions"]
         pw = case["password"]
